@@ -20,6 +20,22 @@ def load_table(name):
         return json.load(fh)
 
 
+def jsonable(x, depth=0):
+    """Details handed to the evidence writer by rules may contain tuples as keys, sets or fact objects."""
+    if depth > 8:
+        return str(x)
+    if isinstance(x, dict):
+        return {str(k): jsonable(v, depth + 1) for k, v in x.items()}
+    if isinstance(x, (list, tuple, set, frozenset)):
+        seq = list(x)
+        if isinstance(x, (set, frozenset)):
+            seq = sorted(seq, key=str)
+        return [jsonable(v, depth + 1) for v in seq]
+    if isinstance(x, (str, int, float, bool)) or x is None:
+        return x
+    return str(getattr(x, "key", x))
+
+
 class Instance:
     __slots__ = ("rule", "key", "ok", "where", "fn", "msg", "detail")
 
@@ -34,7 +50,7 @@ class Instance:
         if self.msg:
             d["message"] = self.msg
         if self.detail is not None:
-            d["detail"] = self.detail
+            d["detail"] = jsonable(self.detail)
         return d
 
 
@@ -145,7 +161,7 @@ def write_evidence(prop, tier, ctx, violations, known_hits, wall, explanation, e
         "notes": ctx.notes,
     }
     if extra:
-        cov.update(extra)
+        cov.update(jsonable(extra))
     ev = {
         "property_id": prop,
         "tier": tier,
